@@ -1774,15 +1774,21 @@ def replay_c07_multiply(args):
     ns = [0, 1, 2, 3, 4, 5, 7, 8, 15, 16, 17, 31, 255, 256, 2 ** 64 + 1, m.curve_order - 1, m.curve_order, m.curve_order + 1, 2 * p - m.curve_order, 2 ** 300 + 12345]
     if args.get("n"):
         ns.insert(0, int(args["n"]))
-    for n in ns:
-        exp = aff_mul(g, n % m.curve_order if n >= m.curve_order else n, p)
-        try:
-            r = m.multiply(m.G1, n)
-            got = _proj_to_aff_int(r, p) if opt else (None if r is None else (int(r[0]), int(r[1])))
-        except Exception as e:
-            got = repr(e)[:40]
-        if got != exp:
-            bad.append((n if n < 10 ** 6 else "big(%d bits)" % n.bit_length(),))
+    FQ = m.FQ
+    # base points: the generator, and an arbitrary pair (a point of SOME curve y^2 = x^3 + b' of unknown order: the
+    # formulas do not use b, and multiply(P, n) must be the n-fold sum without any reduction of n)
+    bases = [g, (12345, 67890), (0, 2)]
+    for base in bases:
+        for n in ns:
+            exp = aff_mul(base, n, p)
+            try:
+                pt = (FQ(base[0]), FQ(base[1]), FQ(1)) if opt else (FQ(base[0]), FQ(base[1]))
+                r = m.multiply(pt, n)
+                got = _proj_to_aff_int(r, p) if opt else (None if r is None else (int(r[0]), int(r[1])))
+            except Exception as e:
+                got = repr(e)[:40]
+            if got != exp:
+                bad.append((base[0] % 100000, n if n < 10 ** 6 else "big(%d bits)" % n.bit_length(),))
     return (len(bad) > 0), "c07_multiply %s: %d mismatches %s" % (args["module"], len(bad), str(bad[:4])[:200])
 
 
@@ -2014,3 +2020,76 @@ def replay_c10_pipeline(args):
     if int(P[0].coeffs[0]) != x0:
         bad.append(("RFC 9380 J.10.1 vector",))
     return (len(bad) > 0), "c10_pipeline: %s" % bad[:3]
+
+
+def _fq2_inv(a, q):
+    n = (a[0] * a[0] + a[1] * a[1]) % q
+    ni = pow(n, q - 2, q) if n else 0
+    return (a[0] * ni % q, -a[1] * ni % q)
+
+
+def _fq2_sgn0(a):
+    return (a[0] % 2) | ((1 if a[0] == 0 else 0) & (a[1] % 2))
+
+
+def rfc_sswu_g2(u):
+    """RFC 9380 F.2 simplified SWU over F_p^2 for the BLS12381G2 suite: A' = 240 i, B' = 1012 (1 + i), Z = -(2 + i)."""
+    q = _Q381
+    A, B, Z = (0, 240), (1012, 1012), (q - 2, q - 1)
+    add = lambda a, b: ((a[0] + b[0]) % q, (a[1] + b[1]) % q)
+    neg = lambda a: (-a[0] % q, -a[1] % q)
+    mul = lambda a, b: _fq2_mul(a, b, q)
+    u = (u[0] % q, u[1] % q)
+    tv1 = mul(Z, mul(u, u))
+    tv2 = mul(tv1, tv1)
+    x1 = add(tv1, tv2)
+    x1 = _fq2_inv(x1, q)
+    e1 = x1 == (0, 0)
+    x1 = add(x1, (1, 0))
+    if e1:
+        x1 = neg(_fq2_inv(Z, q))
+    x1 = mul(x1, mul(neg(B), _fq2_inv(A, q)))
+    gx1 = add(add(mul(mul(x1, x1), x1), mul(A, x1)), B)
+    x2 = mul(tv1, x1)
+    tv2 = mul(tv1, tv2)
+    gx2 = mul(gx1, tv2)
+    r1 = _fq2_sqrt(gx1, q)
+    if r1 is not None:
+        x, y = x1, r1
+    else:
+        x, y = x2, _fq2_sqrt(gx2, q)
+        assert y is not None
+    if _fq2_sgn0(u) != _fq2_sgn0(y):
+        y = neg(y)
+    return (x, y)
+
+
+_old_replay_c10_map = replay_c10_map
+
+
+def replay_c10_map(args):
+    if args.get("group") != "G2":
+        return _old_replay_c10_map(args)
+    from py_ecc.optimized_bls12_381 import FQ2, optimized_swu_G2, iso_map_G2, is_on_curve, b2
+    q = _Q381
+    rng = random.Random(102)
+    bad = []
+    ts = [(0, 0), (1, 0), (0, 1), (0, 3), (0, q - 1), (q - 1, 0), (2, 0), (0, 2), ((q - 1) // 2, 1), (1, (q + 1) // 2)] + \
+         [(rng.randrange(q), rng.randrange(q)) for _ in range(10)]
+    # roots of Z t^2 + 1
+    w = _fq2_inv((2, 1), q)           # -1/Z = 1/(2+i)
+    r = _fq2_sqrt(w, q)
+    if r is not None:
+        ts += [r, (-r[0] % q, -r[1] % q)]
+    for t in ts:
+        try:
+            N, Y, D = optimized_swu_G2(FQ2(list(t)))
+            x, y = N / D, Y / D
+            got = (tuple(int(c) for c in x.coeffs), tuple(int(c) for c in y.coeffs))
+            if got != rfc_sswu_g2(t):
+                bad.append(("swu G2", (t[0] % 1000, t[1] % 1000)))
+            if not is_on_curve(iso_map_G2(N, Y, D), b2):
+                bad.append(("iso image off curve",))
+        except Exception as e:
+            bad.append((repr(e)[:50], (t[0] % 1000, t[1] % 1000)))
+    return (len(bad) > 0), "c10_map G2: %d mismatches %s" % (len(bad), str(bad[:3])[:200])
